@@ -100,6 +100,12 @@ func (mgr *bindingManager) create(addr net.Addr) *binding {
 	mgr.mutex.Lock()
 	defer mgr.mutex.Unlock()
 
+	// Callers look the address up first and create on a miss, without holding
+	// the lock in between: a concurrent caller may have created it meanwhile.
+	if b, ok := mgr.addrMap[addr.String()]; ok {
+		return b
+	}
+
 	b := &binding{
 		number:       mgr.assignChannelNumber(),
 		addr:         addr,
